@@ -406,6 +406,32 @@ func runC17(c *core.Ctx) {
 				}
 			}
 		}
+		// the deserializer's own error becomes Err on every path (also where its result has the right type)
+		{
+			var des *ssa.Call
+			core.Instrs(dec, func(ins ssa.Instruction) {
+				if call, isC := ins.(*ssa.Call); isC && core.Callee(&call.Call) == nil && !call.Call.IsInvoke() && core.FieldKey(call.Call.Value) == "SimpleAPIDef.ResponseDeserializer" {
+					des = call
+				}
+			})
+			if des != nil {
+				okE, _ := core.MustPassBefore(des, func(ins ssa.Instruction) bool {
+					st, isS := ins.(*ssa.Store)
+					if !isS || core.FieldKey(st.Addr) != "ResponseWithError.Err" {
+						return false
+					}
+					for _, lf := range core.Origins(p, st.Val, nil) {
+						if ex, isE := core.Resolve(lf.Val).(*ssa.Extract); isE && ex.Tuple == ssa.Value(des) && ex.Index == 1 {
+							return true
+						}
+					}
+					return false
+				}, func(ssa.Instruction) bool { return false }, nil)
+				c.Check(okE, "R4", "decodeResponseBody/deserializer-error", p.InstrPos(des), "the deserializer's error result is stored as Err on every path", "a path of decodeResponseBody returns without storing the deserializer's error as Err: a deserializer that reports (target, err) yields a response with Err == nil")
+			} else {
+				c.Unknown("R4", "decodeResponseBody/deserializer-error", p.Pos(dec.Pos()), "no call of the configured ResponseDeserializer found")
+			}
+		}
 		c.Check(readStored && typeStored, "R4", "decodeResponseBody/failures-become-Err", p.Pos(dec.Pos()), "read error stored as Err; a wrong-typed result without an error gets one",
 			fmt.Sprintf("decodeResponseBody drops a failure (read error stored=%v, wrong-type result reported=%v): the caller sees Err == nil with no decoded target", readStored, typeStored))
 		c.Check(bad == "" && n > 0, "R4", "decodeResponseBody/assertion", p.Pos(dec.Pos()), "assertion on the deserializer's result is comma-ok", bad+map[bool]string{true: "no assertion on a deserializer result found", false: ""}[n == 0 && bad == ""])
